@@ -521,7 +521,7 @@ func (t *tr) visit(f *types.Func) {
 					}
 				}
 				if g != nil {
-					if _, have := t.funcs[g]; have {
+					if _, have := t.funcs[g]; have && !onlyStrings(g) {
 						t.visit(g)
 					}
 				}
@@ -537,6 +537,20 @@ func (t *tr) visit(f *types.Func) {
 	}
 	t.state[f] = 2
 	t.order = append(t.order, f)
+}
+
+// onlyStrings: every result is a string (String() methods and the like): such calls are rendered opaque
+func onlyStrings(g *types.Func) bool {
+	res := g.Type().(*types.Signature).Results()
+	if res.Len() == 0 {
+		return false
+	}
+	for i := 0; i < res.Len(); i++ {
+		if b, ok := res.At(i).Type().Underlying().(*types.Basic); !ok || b.Kind() != types.String {
+			return false
+		}
+	}
+	return true
 }
 
 func (t *tr) sameFunc(q *pkgInfo, g *types.Func) *types.Func {
@@ -752,7 +766,18 @@ func pow2(n int) string {
 	return fmt.Sprintf("(2^%d)", n)
 }
 
+func isBytesBuffer(ty types.Type) bool {
+	if p, ok := ty.(*types.Pointer); ok {
+		ty = p.Elem()
+	}
+	nm, ok := ty.(*types.Named)
+	return ok && nm.Obj().Pkg() != nil && nm.Obj().Pkg().Path() == "bytes" && nm.Obj().Name() == "Buffer"
+}
+
 func (t *tr) leanType(n ast.Node, ty types.Type) string {
+	if isBytesBuffer(ty) {
+		return "(List Nat)" // a bytes.Buffer that is only written to and read with Bytes(): its content
+	}
 	if bits, signed, ok := intInfo(ty); ok {
 		_ = bits
 		if signed {
@@ -794,6 +819,9 @@ func (t *tr) leanType(n ast.Node, ty types.Type) string {
 }
 
 func (t *tr) zero(n ast.Node, ty types.Type) string {
+	if isBytesBuffer(ty) {
+		return "([] : List Nat)"
+	}
 	if _, signed, ok := intInfo(ty); ok {
 		if signed {
 			return "(0 : Int)"
@@ -1548,6 +1576,25 @@ func (t *tr) callStmt(sb *strings.Builder, c *ast.CallExpr, lhs []ast.Expr, defi
 		t.block(sb, fl.Body.List, ind+"  ")
 		return true
 	}
+	// bytes.Buffer: WriteByte / Write on a local buffer
+	if sel0, ok := c.Fun.(*ast.SelectorExpr); ok {
+		if id, ok := sel0.X.(*ast.Ident); ok {
+			if tv, ok := t.p.info.Types[id]; ok && isBytesBuffer(tv.Type) && lhs == nil {
+				switch sel0.Sel.Name {
+				case "WriteByte":
+					fmt.Fprintf(sb, "%s%s := %s ++ [%s]\n", ind, name(id.Name), name(id.Name), t.expr(c.Args[0]))
+					return true
+				case "Write":
+					fmt.Fprintf(sb, "%s%s := %s ++ %s\n", ind, name(id.Name), name(id.Name), t.atom(c.Args[0]))
+					return true
+				case "Reset":
+					fmt.Fprintf(sb, "%s%s := []\n", ind, name(id.Name))
+					return true
+				}
+				t.fail(c, "bytes.Buffer method %s", sel0.Sel.Name)
+			}
+		}
+	}
 	// encoding/binary big-endian stores into a local slice
 	if fn := exprString(c.Fun); (fn == "binary.BigEndian.PutUint16" || fn == "binary.BigEndian.PutUint32") && lhs == nil && len(c.Args) == 2 {
 		if id, ok := c.Args[0].(*ast.Ident); ok {
@@ -2095,6 +2142,19 @@ func (t *tr) callExpr(c *ast.CallExpr, tv types.TypeAndValue) string {
 				return "(" + t.atom(c.Args[0]) + " ++ [" + strings.Join(els, ", ") + "])"
 			}
 			t.fail(c, "builtin %s", id.Name)
+		}
+	}
+	if sel0, ok := c.Fun.(*ast.SelectorExpr); ok {
+		if id, ok := sel0.X.(*ast.Ident); ok {
+			if tv0, ok := t.p.info.Types[id]; ok && isBytesBuffer(tv0.Type) {
+				switch sel0.Sel.Name {
+				case "Bytes":
+					return name(id.Name)
+				case "Len":
+					return "(" + name(id.Name) + ".length : Int)"
+				}
+				t.fail(c, "bytes.Buffer method %s in an expression", sel0.Sel.Name)
+			}
 		}
 	}
 	// opaque: error and string producing calls (fmt.Errorf, fmt.Sprintf ...) feed only panics / OnErr
